@@ -30,6 +30,25 @@ static std::string run(const Sx& c) {
     VectorDouble q = { c[3][0].d(), c[3][1].d() };
     if (!c[4].l.empty()) q.push_back(c[4].d());
     o << "(" << (P.inside(q, c[1].b()) ? 1 : 0) << ")";
+  } else if (kind == 3) {
+    // history of edits on one Polygons object, then one query
+    Polygons P;
+    for (auto& op : c[2].l) {
+      if (op[0].i() == 0) {
+        VectorDouble x, y;
+        for (auto& p : op[1][0].l) { x.push_back(p[0].d()); y.push_back(p[1].d()); }
+        P.addPolyElem(PolyElem(x, y, op[1][1].d(TEST), op[1][2].d(TEST)));
+      } else {
+        int ipol = (int) op[1].i();
+        if (ipol < 0 || ipol >= P.getPolyElemNumber()) continue;
+        VectorDouble x, y;
+        for (auto& p : op[2].l) { x.push_back(p[0].d()); y.push_back(p[1].d()); }
+        P.setX(ipol, x); P.setY(ipol, y);
+      }
+    }
+    VectorDouble q = { c[3][0].d(), c[3][1].d() };
+    if (!c[4].l.empty()) q.push_back(c[4].d());
+    o << "(" << (P.inside(q, c[1].b()) ? 1 : 0) << ")";
   } else if (kind == 2) {
     bool flag_sel = c[1].b(), flag_period = c[2].b(), nested = c[3].b();
     Polygons P = makePolygons(c[4]);
